@@ -509,6 +509,15 @@ func runTrace(c tcase, dir string) {
 	tr.log("end")
 }
 
+// scratchRoot: temporary files live under the working directory (the check's scratch directory, removed
+// when the check exits - also if this process is killed by a panic inside mtail), not under /tmp.
+func scratchRoot() string {
+	if wd, err := os.Getwd(); err == nil {
+		return wd
+	}
+	return ""
+}
+
 func main() {
 	out := flag.String("out", "", "event file (ndjson, appended)")
 	par := flag.Int("par", 4, "traces run concurrently")
@@ -525,7 +534,7 @@ func main() {
 	if err != nil {
 		vh.Fatal("%v", err)
 	}
-	dir, err := os.MkdirTemp("", "c17-")
+	dir, err := os.MkdirTemp(scratchRoot(), "c17-")
 	if err != nil {
 		vh.Fatal("%v", err)
 	}
